@@ -45,6 +45,7 @@ def verify(sid):
         src = os.path.join(d, "src")
         chk = subprocess.run([PY, "-c", "import physt,sys;print(physt.__file__)"], env=env_with(src), capture_output=True, text=True)
         assert src in chk.stdout, chk.stdout + chk.stderr
+        shutil.rmtree("/var/tmp/hyp-suite/examples", ignore_errors=True)  # never replay pinned examples of flaky tests
         t = subprocess.run([PY, "-m", "pytest", "-q", "-p", "no:cacheprovider", "-n", "8", "--timeout=900",
                             "--continue-on-collection-errors"], cwd="/repo", env=env_with(src), capture_output=True, text=True)
         tail = [line for line in t.stdout.splitlines() if "passed" in line or "failed" in line][-1:]
